@@ -1563,3 +1563,47 @@ func (p *Program) apiEntries(fn *ssa.Function) []*ssa.Function {
 	}
 	return walk(fn, 0, map[*ssa.Function]bool{})
 }
+
+// selectorHelperFields: v is the result of a call-free method called on recv that, on every path, returns one of its
+// receiver's fields (as it is, or wrapped in an interface): `active()` picking between the delegate and the
+// compressor. It returns the selectors (".w", ".lc") the helper can hand back.
+func selectorHelperFields(v ssa.Value, recv ssa.Value) ([]string, bool) {
+	c, ok := v.(*ssa.Call)
+	if !ok {
+		return nil, false
+	}
+	h := c.Common().StaticCallee()
+	if h == nil || h.Blocks == nil || h.Signature.Recv() == nil || len(c.Common().Args) != 1 || c.Common().Args[0] != recv || len(allCalls(h)) != 0 {
+		return nil, false
+	}
+	var out []string
+	for _, b := range h.Blocks {
+		for _, in := range b.Instrs {
+			ret, ok := in.(*ssa.Return)
+			if !ok {
+				continue
+			}
+			if len(ret.Results) != 1 {
+				return nil, false
+			}
+			x := ret.Results[0]
+			for {
+				if mi, ok := x.(*ssa.MakeInterface); ok {
+					x = mi.X
+					continue
+				}
+				if ci, ok := x.(*ssa.ChangeInterface); ok {
+					x = ci.X
+					continue
+				}
+				break
+			}
+			root, sel, ok := fieldLoad(x)
+			if !ok || root != ssa.Value(h.Params[0]) {
+				return nil, false
+			}
+			out = append(out, sel)
+		}
+	}
+	return out, len(out) > 0
+}
